@@ -1566,6 +1566,10 @@ Vdeletetagref(int32 vkey, /* IN: vgroup key */
     if (vg == NULL)
         HGOTO_ERROR(DFE_BADPTR, FAIL);
 
+    /* the member list is stored when a vgroup attached for writing is detached */
+    if (vg->access != 'w')
+        HGOTO_ERROR(DFE_BADACC, FAIL);
+
     /* set comparison tag/ref pair */
     ttag = (uint16)tag;
     rref = (uint16)ref;
@@ -1930,6 +1934,10 @@ Vaddtagref(int32 vkey, /* IN: vgroup key */
     vg = v->vg;
     if (vg == NULL)
         HGOTO_ERROR(DFE_BADPTR, FAIL);
+
+    /* the member list is stored when a vgroup attached for writing is detached */
+    if (vg->access != 'w')
+        HGOTO_ERROR(DFE_BADACC, FAIL);
 
 #ifdef NO_DUPLICATES
     /* SD interface needs duplication if two dims have the same name.
